@@ -488,10 +488,50 @@ pub fn run(tier: Tier) -> Report {
     }
     run_pics(&rep, "stuffing", &pics, &stats);
 
+    // ---- size histories: every ordered triple of sizes that collide in one derived quantity and
+    // differ in another (equal area / other shape, equal luma count / other chroma count, equal
+    // chroma planes, equal macroblock grid), decoded as three intra pictures by one decoder; every
+    // picture is compared with the reference
+    {
+        let mut n = 0u64;
+        // (Sorenson streams only: in standard mode the parser answers every change of the source format
+        // with UnimplementedDecoding - the resampling gate it documents as unimplemented)
+        for (std, version) in [(false, 0u8), (false, 1)] {
+            let sizes = super::crash::colliding_sizes(std);
+            let pairs: Vec<(usize, usize)> = (0..sizes.len()).flat_map(|a| (0..sizes.len()).map(move |b| (a, b))).collect();
+            let hdr_for = |(w, h): (u16, u16), tr: u8| -> Hdr {
+                if std {
+                    Hdr::Std(StdHdr::custom(w, h, false, tr, 6))
+                } else {
+                    sor(w, h, version, 6)
+                }
+            };
+            pairs.par_iter().for_each(|&(a, b)| {
+                for c in 0..sizes.len() {
+                    let mut d = Dec::for_hdr(&hdr_for(sizes[a], 0));
+                    let mut st = CmpStats::default();
+                    for (k, &sz) in [sizes[a], sizes[b], sizes[c]].iter().enumerate() {
+                        let p = coded_intra(hdr_for(sz, k as u8));
+                        if let Err(f) = d.step(&p, "C02", &mut st) {
+                            rep.violation(&format!("{}[size-history]", f.sig), format!("[size history {:?} -> {:?} -> {:?}, picture {k}] {}", sizes[a], sizes[b], sizes[c], f.what), d.replay("size-history"));
+                            break;
+                        }
+                    }
+                    stats.0.fetch_add(st.samples, Ordering::Relaxed);
+                    stats.1.fetch_add(st.ties, Ordering::Relaxed);
+                }
+            });
+            n += (pairs.len() * sizes.len()) as u64;
+        }
+        rep.add_transitions(3 * n);
+        rep.add_states(n);
+        rep.extra_add("size_histories_of_three_intra_pictures", n);
+    }
+
     rep.extra("samples_compared", json!(stats.0.load(Ordering::Relaxed)));
     rep.extra("samples_accepted_inside_rounding_band", json!(stats.1.load(Ordering::Relaxed)));
     rep.set_rule(&format!(
-        "intra pictures enumerated as syntax trees, encoded by an independent bit writer, decoded by H263State and by a naive f64 reference decoder: every size 1..={maxdim}^2 (+ large/odd extras) x {{Sorenson v0, v1, H.263 custom/baseline}} with position-coded content; all 64 CBP x 5 sparsity shapes x {{INTRA, INTRA+Q}} x 3 sizes x 2 versions; every short TCOEF code x sign, escape run x boundary levels x 3 forms x quantizers {:?}; two-event chains; all assignments of DC-only / row-only / column-only / dense to the luma blocks of a 32x16 picture in raster order with identical sparse vectors; every INTRADC x 6 positions; all DQUANT triples x 31 PQUANT; stuffing/PEI combinations; \
+        "intra pictures enumerated as syntax trees, encoded by an independent bit writer, decoded by H263State and by a naive f64 reference decoder: every size 1..={maxdim}^2 (+ large/odd extras) x {{Sorenson v0, v1, H.263 custom/baseline}} with position-coded content; all 64 CBP x 5 sparsity shapes x {{INTRA, INTRA+Q}} x 3 sizes x 2 versions; every short TCOEF code x sign, escape run x boundary levels x 3 forms x quantizers {:?}; two-event chains; all assignments of DC-only / row-only / column-only / dense to the luma blocks of a 32x16 picture in raster order with identical sparse vectors; every INTRADC x 6 positions; all DQUANT triples x 31 PQUANT; stuffing/PEI combinations; every ordered triple of 17 colliding sizes decoded as three Sorenson intra pictures by one decoder; \
          non-trivial = picture whose size is not a multiple of 16, or that carries AC events / DQUANT",
         qs
     ));
